@@ -839,6 +839,10 @@ impl<B> Flow<B, Redirect> {
 
         // TODO(martin): clear out unwanted headers
 
+        // The request has moved into the new flow. Following the redirect again
+        // is not possible, further calls get NoLocationHeader.
+        self.inner.location = None;
+
         Ok(Some(next))
     }
 
